@@ -151,6 +151,10 @@ def generate(rng, *, n_inputs=None, n_statements=None, rows=None, carriers=("df"
         make_scalar = rng.random() < scalar_bias and (not sc_avail or rng.random() < 0.5)
         if make_scalar:
             name = "sc_%d" % (i + 1)
+            if rng.random() < 0.1:
+                free = [n for n in ("k", "y", "d2") if n not in ds_avail and n not in sc_avail and all(n != s2["name"] for s2 in stmts)]
+                if free:
+                    name = rng.choice(free)
             tpl, kinds = rng.choice(SCALAR_TEMPLATES if sc_avail else SCALAR_TEMPLATES[:1] * 3 + SCALAR_TEMPLATES)
             vals = {"lit": str(rng.choice([2, 3, 5, 1.5, 10]))}
             for slot in kinds:
@@ -158,6 +162,11 @@ def generate(rng, *, n_inputs=None, n_statements=None, rows=None, carriers=("df"
             shape = "sc"
         else:
             name = rng.choice(["R_%d", "R_%d", "Out_%d", "tmp_%d"]) % (i + 1)
+            if rng.random() < 0.12:
+                # names that also occur in other roles elsewhere in a script: join aliases, UDO parameters
+                free = [n for n in ("d1", "d2", "x", "y", "k") if n not in ds_avail and n not in sc_avail and all(n != s2["name"] for s2 in stmts)]
+                if free:
+                    name = rng.choice(free)
             tpl, shape, kinds = rng.choice(DATASET_TEMPLATES)
             vals = {"k": str(rng.choice([0, 1, 2]))}
             for slot, kind in kinds.items():
@@ -206,7 +215,7 @@ def generate(rng, *, n_inputs=None, n_statements=None, rows=None, carriers=("df"
         "inputs_used": sorted({p for (p, _c, _k) in edges if p in inputs}),
         "edges": sorted((p, c) for (p, c, _k) in edges),
         "edge_kinds": sorted(set(kd for (_p, _c, kd) in edges)),
-        "reader_profiles": sorted(set("%s:%s" % ("I" if p in inputs else ("sc" if p.startswith("sc_") else "R"), ">".join(v)) for p, v in prof.items())),
+        "reader_profiles": sorted(set("%s:%s" % ("I" if p in inputs else ("sc" if p in sc_avail else "R"), ">".join(v)) for p, v in prof.items())),
         "persist": "".join("P" if s["op"] == "<-" else "n" for s in written),
         "order": order, "shapes": {s["name"]: s["shape"] for s in stmts},
         "viral": False, "time_period": False, "nrows": nrows, "analytic": " over (" in script, "dag": True,
